@@ -154,6 +154,12 @@ func (c *Ctx) stackFields() (addr, size map[fieldKey]token.Pos) {
 		default:
 			return false
 		}
+		// an address is kept in a uintptr, an unsafe.Pointer or a pointer; a signed
+		// integer computed from addresses is a distance between two of them
+		// (stackOffsetFromTo, spOffsetTo, ...), which a moving stack preserves
+		if b, ok := ft.Underlying().(*types.Basic); ok && a && b.Kind() != types.Uintptr && b.Kind() != types.UnsafePointer {
+			a = false
+		}
 		if a {
 			if _, ok := addr[k]; !ok {
 				addr[k] = pos
